@@ -303,11 +303,6 @@ class PrecipitateModel (PrecipitateBase):
         #Equilibrium aspect ratio and PBM setup
         self._setupAspectRatio()
 
-        #Setup precipitation data for n = 0
-        Y = self.pData.copySlice(self.pData.n)
-        Y.time = np.array([self.pData.time[self.pData.n]])
-        Y.temperature = np.array([self.temperatureParameters(Y.time[0])])
-
         #Setup interfacial composition
         if self.numberOfElements == 1:
             self.pData.xEqAlpha[self.pData.n], self.pData.xEqBeta[self.pData.n] = self._createLookupBinary(self.pData.temperature[self.pData.n])
@@ -323,6 +318,11 @@ class PrecipitateModel (PrecipitateBase):
                     _, _, _, c_eq_alpha, c_eq_beta = growth_result
                     self.pData.xEqAlpha[self.pData.n,p] = c_eq_alpha
                     self.pData.xEqBeta[self.pData.n,p] = c_eq_beta
+
+        #Setup precipitation data for n = 0 (after the interfacial composition so that it holds the equilibrium compositions)
+        Y = self.pData.copySlice(self.pData.n)
+        Y.time = np.array([self.pData.time[self.pData.n]])
+        Y.temperature = np.array([self.temperatureParameters(Y.time[0])])
 
         x = [self.PBM[p].PSD for p in range(len(self.phases))]
         Y = self._calcNucleationRate(self.pData.time[self.pData.n], x, Y)
